@@ -28,6 +28,15 @@ pub fn call_view(view: &SourceView, c: &Value) -> Value {
 
 /// text of a case: explicit code points, or a repeated pattern {"unit": cps, "sep": cps, "n": count}
 pub fn case_text(case: &Value) -> String {
+    if let Some(segs) = case.get("segs").and_then(|s| s.as_array()) {
+        let mut t = String::new();
+        for g in segs {
+            let ch = char::from_u32(g[0].as_u64().unwrap() as u32).unwrap();
+            for _ in 0..g[1].as_u64().unwrap() { t.push(ch); }
+            t.push_str(["\n", "\r", "\r\n"][g[2].as_u64().unwrap() as usize]);
+        }
+        return t;
+    }
     match case.get("rep") {
         Some(r) if r.is_object() => { let (u, s) = (text_of(&r["unit"]), text_of(&r["sep"])); format!("{}{}", u, s).repeat(r["n"].as_u64().unwrap() as usize) }
         _ => text_of(&case["text"]),
@@ -39,11 +48,15 @@ pub fn rep_arg(case: &Value) -> Value {
 
 pub fn run(case: &Value, em: &mut Emitter) {
     let text = case_text(case);
-    let view = SourceView::new(text.into());
+    let mut view = SourceView::new(text.into());
     for c in case["calls"].as_array().unwrap() {
-        let out = call_view(&view, c);
+        let out = if c["op"] == "clone" {
+            // the session goes on with a clone of the view (the original is dropped)
+            let v2 = guard(|| { view = view.clone(); json!({"k": "ok", "ret": 0}) });
+            v2
+        } else { call_view(&view, c) };
         let g = |k: &str| c.get(k).cloned().unwrap_or(json!(0));
-        em.emit(c["op"].as_str().unwrap(), json!({"text": case.get("text").cloned().unwrap_or(json!([])), "rep": rep_arg(case), "i": g("i"), "line": g("line"), "c": g("c"), "n": g("n")}), out);
+        em.emit(c["op"].as_str().unwrap(), json!({"text": case.get("text").cloned().unwrap_or(json!([])), "rep": rep_arg(case), "segs": case.get("segs").cloned().unwrap_or(json!([])), "i": g("i"), "line": g("line"), "c": g("c"), "n": g("n")}), out);
     }
 }
 
@@ -78,8 +91,38 @@ fn gen_rep(rng: &mut Rng) -> Value {
     json!({"op": "view", "rep": {"unit": unit, "sep": sep, "n": n}, "calls": calls})
 }
 
+/// a few LONG lines whose byte lengths sit next to powers of two (2^6 .. 2^13, +-2), each with its own terminator;
+/// requests whose answers are short (counts, short lines, slices near the line ends), a long line now and then
+fn gen_segs(rng: &mut Rng) -> Value {
+    let nseg = 1 + rng.below(6) as usize;
+    let mut segs: Vec<Value> = vec![];
+    let mut prev_cr = false;
+    for _ in 0..nseg {
+        let (ch, w) = *rng.pick(&[(97u32, 1usize), (97, 1), (97, 1), (0xE9, 2), (0x1F60D, 4)]);
+        let mut len = if rng.chance(1, 5) { rng.below(3) as usize } else { (boundary_len(rng, 6, 13) + rng.below(w as u64) as usize) / w };
+        let sep = rng.below(3);
+        if prev_cr && len == 0 { len = 1; }
+        prev_cr = sep == 1;
+        segs.push(json!([ch, len, sep]));
+    }
+    let mut calls = vec![];
+    for _ in 0..1 + rng.below(5) {
+        let line = rng.range(0, nseg as i64 + 1);
+        let len = segs.get(line as usize).map(|g| g[1].as_i64().unwrap()).unwrap_or(0);
+        calls.push(match rng.below(8) {
+            0 | 1 => json!({"op": "line_count"}),
+            2 => json!({"op": "clone"}),
+            3 => json!({"op": "get_line", "i": line}),
+            4 => json!({"op": "get_line", "i": nseg as i64 + rng.range(0, 1)}),
+            _ => json!({"op": "slice", "line": line, "c": (len - rng.range(0, 3)).max(0) * if rng.chance(1, 2) { 1 } else { 2 }, "n": rng.range(0, 3)}),
+        });
+    }
+    json!({"op": "view", "segs": segs, "calls": calls})
+}
+
 pub fn gen(rng: &mut Rng, size: usize) -> Value {
     if rng.chance(1, 60) { return gen_rep(rng); }
+    if rng.chance(1, 6) { return gen_segs(rng); }
     let large = rng.chance(1, 40);
     let n = if large { 700 + rng.below(900) as usize } else { rng.below((size * 30) as u64 + 1) as usize };
     let text = gen_text(rng, n);
@@ -87,6 +130,7 @@ pub fn gen(rng: &mut Rng, size: usize) -> Value {
     let ncalls = if large { 1 + rng.below(4) } else { 1 + rng.below(if size > 4 { 50 } else { 12 }) };
     let calls: Vec<Value> = (0..ncalls).map(|_| match rng.below(10) {
         0 => json!({"op": "line_count"}),
+        1 if rng.chance(1, 2) => json!({"op": "clone"}),
         1 => json!({"op": "lines"}),
         2 | 3 | 4 => json!({"op": "get_line", "i": if rng.chance(1, 10) { MAXU } else { rng.range(0, nlines + 1) }}),
         _ => json!({"op": "slice", "line": rng.range(0, nlines),
